@@ -472,6 +472,16 @@ class NumEval:
             return const(1)
         if c in ('torch.floor_divide',):
             return self.binop('//', t[2][0], t[2][1], d)
+        if c in ('torch.remainder',) and len(t[2]) == 2:
+            return self.binop('%', t[2][0], t[2][1], d)
+        if c in ('torch.fmod', 'math.fmod') and len(t[2]) == 2:
+            # truncated remainder: the floor modulo for a non-negative dividend, else in (-b, b)
+            a, b = self.ev(t[2][0], d), self.ev(t[2][1], d)
+            if a.lo >= 0:
+                return self.binop('%', t[2][0], t[2][1], d)
+            if b.lo > 0:
+                return AV(-b.hi, b.hi, {x: None for x in a.inputs() | b.inputs()})
+            raise NumError('fmod by a value that may be <= 0')
         if c in ('torch.mul',):
             return self.binop('*', t[2][0], t[2][1], d)
         if c in ('torch.add',):
